@@ -62,7 +62,7 @@ def _dt_attr(ex, st, ref, attr):
     if attr == "tzinfo":
         out = []
         for s, nv in ex.branch(st, Sc.bv(o.fields["_naive"].t)):
-            out.append((s, sv_none() if nv else Opaque("tzinfo")))
+            out.append((s, sv_none() if nv else Opaque("tzinfo", {"not_none": True})))
         return out
     return [(st, BuiltinV("datetime." + attr, ref))]
 
